@@ -172,9 +172,46 @@ impl Check for C11 {
             }
             // stream: chain[0] > chain[1] > ... > probe (a leaf with a small payload, or an empty master)
             let leaf = if ed.ty == Ty::Master { Node::master(*p, vec![]) } else { Node::leaf(*p, gen::gen_leaf_val(&mut pr, ed.ty, &gen::PayOpts { max_len: 6, boundary_pct: 0 })) };
+            // sometimes a completed sibling subtree precedes the probe inside the innermost chain master: a
+            // known-size master that ends by byte count, optionally with an unknown-size master (and a leaf)
+            // still open inside it at that moment. It must leave the chain exactly as it was.
+            let mut filler: Option<Node> = None;
+            if pr.chance(1, 3) {
+                let ms: Vec<_> = c.spec.elems.iter().filter(|e| e.ty == Ty::Master && c.spec.allowed(e.id, &ids)).collect();
+                if !ms.is_empty() {
+                    let m = *pr.pick(&ms);
+                    let mut inner_chain = ids.clone();
+                    inner_chain.push(m.id);
+                    let mut kids: Vec<Node> = Vec::new();
+                    let m2s: Vec<_> = c.spec.elems.iter().filter(|e| e.ty == Ty::Master && !e.has_global() && c.spec.allowed(e.id, &inner_chain)).collect();
+                    if !m2s.is_empty() && pr.chance(2, 3) {
+                        let m2 = *pr.pick(&m2s);
+                        let mut c2 = inner_chain.clone();
+                        c2.push(m2.id);
+                        let mut n2 = Node::master(m2.id, vec![]);
+                        n2.enc.unknown = true;
+                        if let Some(l) = c.spec.elems.iter().find(|e| e.ty != Ty::Master && c.spec.allowed(e.id, &c2)) {
+                            n2.body = crate::enc::Body::Master(vec![Node::leaf(l.id, gen::gen_leaf_val(&mut pr, l.ty, &gen::PayOpts { max_len: 4, boundary_pct: 0 }))]);
+                        }
+                        kids.push(n2);
+                        st.inc("probe_reader_stream_with_unknown_master_closed_by_exhaustion");
+                    }
+                    filler = Some(Node::master(m.id, kids));
+                    st.inc("probe_reader_stream_with_completed_sibling");
+                }
+            }
             let mut node = leaf;
+            let mut first = true;
             for (id, unk) in c.chain.iter().rev() {
-                let mut m = Node::master(*id, vec![node]);
+                let mut kids = Vec::new();
+                if first {
+                    if let Some(f) = filler.take() {
+                        kids.push(f);
+                    }
+                    first = false;
+                }
+                kids.push(node);
+                let mut m = Node::master(*id, kids);
                 m.enc.unknown = *unk;
                 node = m;
             }
@@ -282,7 +319,7 @@ impl Check for C11 {
     }
 
     fn rule(&self) -> &'static str {
-        "One case = specification (random forest of masters up to depth 7, leaves at any depth, global placeholders with arbitrary bounds in trailing AND intermediate position, global masters; or the derive-generated StaticSpec) + a reachable chain of open masters (depth 0-7, some unknown-size) for which EVERY element of the specification is probed: (writer) the chain is opened through the API and write(probe) must return Ok iff the reference NFA matches the declared path against the chain, else UnexpectedTag with the probe's id and an allowed tag must still be accepted afterwards; (reader) the stream chain…probe from the reference encoder is read strictly and must succeed iff the matcher accepts the probe under the chain remaining after the closing rule, else fail with the hierarchy error carrying the probe's id. Non-trivial: chain depth >= 1. Distinct: FNV-1a fingerprint of chain + specification."
+        "One case = specification (random forest of masters up to depth 7, leaves at any depth, global placeholders with arbitrary bounds in trailing AND intermediate position, global masters; or the derive-generated StaticSpec) + a reachable chain of open masters (depth 0-7, some unknown-size) for which EVERY element of the specification is probed: (writer) the chain is opened through the API and write(probe) must return Ok iff the reference NFA matches the declared path against the chain, else UnexpectedTag with the probe's id and an allowed tag must still be accepted afterwards; (reader) the stream chain…probe from the reference encoder — in a third of the probes with a completed known-size sibling subtree (possibly holding an unknown-size master closed by exhaustion) in front of the probe — is read strictly and must succeed iff the matcher accepts the probe under the chain remaining after the closing rule, else fail with the hierarchy error carrying the probe's id. Non-trivial: chain depth >= 1. Distinct: FNV-1a fingerprint of chain + specification."
     }
     fn assumptions(&self) -> Vec<&'static str> {
         vec![
@@ -292,6 +329,6 @@ impl Check for C11 {
         ]
     }
     fn expected_probes(&self) -> Vec<&'static str> {
-        vec!["probes_expected_accept", "probes_expected_reject", "probe_placeholder_paths", "probe_intermediate_placeholder_paths", "probe_closes_unknown_size_masters", "reader_probes"]
+        vec!["probes_expected_accept", "probes_expected_reject", "probe_placeholder_paths", "probe_intermediate_placeholder_paths", "probe_closes_unknown_size_masters", "reader_probes", "probe_reader_stream_with_completed_sibling", "probe_reader_stream_with_unknown_master_closed_by_exhaustion"]
     }
 }
